@@ -9,7 +9,13 @@
 (*     z[i+1] = z[i] + H[i] * Lr[i],   Lr[i] = ln(P[i]/P[i+1]) > 0         *)
 (*     H[i]   = k T[i] / (mu[i] g[i]), g[i]  = GM / (R + z[i])^2           *)
 (* number density is P/(kT), and every per-layer profile that the model    *)
-(* exposes or stores has exactly one entry per layer.                      *)
+(* exposes or stores has exactly one entry per layer, ALIGNED with the     *)
+(* pressure profile: mixing ratios mix[gas][layer] are the rows of the     *)
+(* chemistry table, mu[layer] the weighted mean of that row, and it is     *)
+(* that mu that enters H.  The relations hold on every public route that   *)
+(* computes the structure, in every length unit it is asked to return      *)
+(* (HydroStepRelUnit), and they still hold after the model has been        *)
+(* evaluated (evaluation only reads the structure).                        *)
 (*                                                                         *)
 (* The relations are written once, in cross-multiplied form (no division), *)
 (* over an abstract arithmetic (Mul, Add, Same, Lt passed as operators).   *)
@@ -65,6 +71,37 @@ HydroStepRel(Mul(_, _), Add(_, _), Same(_, _), z0, z1, dz, H, g, T, mu, Lr, rad,
     /\ ThicknessRel(Mul, Same, dz, H, Lr)
     /\ ScaleHeightRel(Mul, Same, H, g, T, mu, kB)
     /\ InverseSquareRel(Mul, Add, Same, g, z0, rad, gm)
+
+\* The step obligation is a statement about physical quantities, so it holds in every consistent
+\* length unit: if a route returns its results in a unit of 1/u metres (z, dz, H and g multiplied by
+\* u: 'km' is u = 1/1000, 'cm' is u = 100), the same relations hold between the RETURNED numbers
+\* and the constants expressed in that unit (R u, GM u^3, k_B u^2).  A conversion applied to
+\* anything that is fed back into g(z) inside the recurrence breaks exactly this.
+HydroStepRelUnit(Mul(_, _), Add(_, _), Same(_, _), u, z0, z1, dz, H, g, T, mu, Lr, rad, gm, kB) ==
+    HydroStepRel(Mul, Add, Same, z0, z1, dz, H, g, T, mu, Lr,
+                 Mul(rad, u), Mul(gm, Mul(u, Mul(u, u))), Mul(kB, Mul(u, u)))
+
+\* ------------------------------------------------- chemistry tables
+\* A file / array chemistry is handed a table tab[layer][gas] (one row per layer, surface first, one
+\* column per gas).  What is exposed is mix[gas][layer], and the mean molecular weight of layer k is
+\* the weighted mean of ROW k.  Both clauses are "aligned with the pressure profile": entry k of a
+\* per-layer profile belongs to layer k.  A table whose entries are all distinct makes every
+\* misalignment (shift, reversal, transposition of a square table) visible.
+DistinctTable(tab) ==
+    \A k1 \in 1..Len(tab), k2 \in 1..Len(tab) : \A g1 \in 1..Len(tab[k1]), g2 \in 1..Len(tab[k2]) :
+        (<<k1, g1>> # <<k2, g2>>) => tab[k1][g1] # tab[k2][g2]
+ExposedMix(tab, ngas) == [g \in 1..ngas |-> [k \in 1..Len(tab) |-> tab[k][g]]]
+MixAlignedRel(Same(_, _), mix, tab, n) ==
+    /\ Len(tab) = n
+    /\ \A g \in 1..Len(mix) : Len(mix[g]) = n
+    /\ \A k \in 1..n : /\ Len(tab[k]) = Len(mix)
+                       /\ \A g \in 1..Len(mix) : Same(mix[g][k], tab[k][g])
+\* sum_j a[j] * b[j]
+SumProd(Mul(_, _), Add(_, _), zero, a, b) ==
+    LET f[j \in 0..Len(a)] == IF j = 0 THEN zero ELSE Add(f[j - 1], Mul(a[j], b[j])) IN f[Len(a)]
+\* mu of layer k is the weighted mean of the mixing ratios exposed for layer k
+WeightedMeanRel(Mul(_, _), Add(_, _), Same(_, _), zero, muk, mix, k, w) ==
+    Same(muk, SumProd(Mul, Add, zero, [g \in 1..Len(mix) |-> mix[g][k]], w))
 
 \* ------------------------------------------------------------- ideal gas
 DensityRel(Mul(_, _), Same(_, _), rho, P, T, kB) == Same(Mul(Mul(rho, kB), T), P)
